@@ -432,3 +432,22 @@ Proof.
   constructor; [wf1 ltac:(right; right; left; reflexivity)|].
   constructor; [wf1 ltac:(right; right; right; reflexivity)|]. constructor.
 Qed.
+
+(* ---- the GNU long-name payload (name + NUL) exactly one block: a 511-byte path, empty file, followed by another
+   member (the configuration a reader that skips "BLOCKSIZE - size % BLOCKSIZE" after the payload gets wrong) ---- *)
+Definition ex_511_name : bytes := [100; 47] ++ repeat 69 509.
+Definition ex_511 : list wmem :=
+  [ {| w_h := {| h_name := [100]; h_mode := 493; h_size := 0; h_type := T_DIR; h_link := [] |}; w_data := []; w_mt := ex_meta |};
+    {| w_h := {| h_name := ex_511_name; h_mode := 420; h_size := 0; h_type := T_REG; h_link := [] |}; w_data := []; w_mt := ex_meta |};
+    {| w_h := {| h_name := [100;47;122]; h_mode := 384; h_size := 7; h_type := T_REG; h_link := [] |};
+       w_data := repeat 90 7; w_mt := ex_meta |} ].
+Lemma ex_511_wf : Forall wf ex_511.
+Proof.
+  unfold ex_511. constructor; [wf1 ltac:(right; left; reflexivity)|].
+  constructor; [wf1 ltac:(left; reflexivity)|].
+  constructor; [wf1 ltac:(left; reflexivity)|]. constructor.
+Qed.
+Lemma ex_511_computes :
+  lenN ex_511_name = 511 /\ block (lenN ex_511_name + 1) = 512
+  /\ members_flat (write_archive (map enc ex_511)) = (Done, map (fun m => (w_h m, w_data m)) ex_511).
+Proof. vm_compute. repeat split; reflexivity. Qed.
